@@ -32,7 +32,8 @@ def _atoms(names):
     import periodictable as pt
     P = dict(C=pt.C, H=pt.H, D=pt.D, T=pt.T, O=pt.O, Fe=pt.Fe, Fe56=pt.Fe[56], Fe54=pt.Fe[54], Fe2=pt.Fe.ion[2], Fe3=pt.Fe.ion[3],
              Fe56_2=pt.Fe[56].ion[2], Fe56_3=pt.Fe[56].ion[3], C13=pt.C[13], H1=pt.H[1], Cl=pt.Cl, Ca=pt.Ca, Co=pt.Co, Hp=pt.H.ion[1],
-             Hm=pt.H.ion[-1], Dp=pt.D.ion[1], O2m=pt.O.ion[-2], He=pt.He, B=pt.B, Br=pt.Br)
+             Hm=pt.H.ion[-1], Dp=pt.D.ion[1], O2m=pt.O.ion[-2], He=pt.He, B=pt.B, Br=pt.Br,
+             C9=pt.C[9], C12=pt.C[12], Li6=pt.Li[6], Li11=pt.Li[11], Pd99=pt.Pd[99], Pd102=pt.Pd[102], Be9=pt.Be[9], Be10=pt.Be[10])
     return [P[n] for n in names]
 
 
@@ -153,13 +154,13 @@ def cases(tier):
     th = tier == 'thorough'
     out = []
     sets = [('O', 'H', 'C'), ('Fe3', 'Fe2', 'O'), ('D', 'C', 'H', 'Cl'), ('Fe56', 'Fe', 'Fe54'), ('Ca', 'Co', 'C13', 'C'),
-            ('Fe56_3', 'Fe56_2', 'Fe2'), ('T', 'H1', 'Hp', 'H')]
+            ('Fe56_3', 'Fe56_2', 'Fe2'), ('T', 'H1', 'Hp', 'H'), ('C12', 'C9', 'C13', 'O'), ('Be10', 'Be9', 'Li11', 'Li6')]
     if th:
         sets += [('Hm', 'Hp', 'Dp', 'D'), ('He', 'H', 'Br', 'B'), ('O2m', 'O', 'C', 'Ca'), ('Fe', 'Fe2', 'Fe56', 'Fe56_2'),
                  ('Cl', 'C', 'Co', 'Ca'), ('C13', 'H1', 'T', 'D')]
     for s in sets:
         out.append(Case('canonical[%s]' % ','.join(s), _canonical_case(s), max_paths=64 if not th else 256, timeout_ms=20000))
-    texts = ['CH4', 'C2H6O', 'CCaO3', 'H2O', 'C6H12O6', 'CHCl3', 'Fe2O3', 'C[13]H4', 'CD4', 'HNaO', 'ClNa', 'HBr']
+    texts = ['Be[9]Be[10]2O', 'C[9]C[12]H4', 'CH4', 'C2H6O', 'CCaO3', 'H2O', 'C6H12O6', 'CHCl3', 'Fe2O3', 'C[13]H4', 'CD4', 'HNaO', 'ClNa', 'HBr']
     for t in texts:
         out.append(Case('parsed_hill[%s]' % t, _parsed_hill_case(t), max_paths=4))
     out.append(Case('pair_order_crosshair', None, custom=_crosshair_order, budget_s=900 if th else 300))
